@@ -109,6 +109,10 @@ func (in *objIndex) UnmarshalJSON(data []byte) error {
 		if fi == nil {
 			return fmt.Errorf("%w: null index for field %s", ErrBadIndexEntry, name)
 		}
+		// the values of a field index are read from the field it is named after
+		if fi.Name != name {
+			return fmt.Errorf("%w: index of field %s is named %s", ErrBadIndexEntry, name, fi.Name)
+		}
 	}
 
 	in.i = 0
